@@ -12,7 +12,7 @@ RULE = (
     "seeded call histories: 2-6 concurrently pending actor tasks each run a script of {call f.asynq(...) in one of "
     "several spellings (positional / keyword / defaults / keyword-only), await one or several earlier calls (same yield "
     "or later), let a flush pass, dirty(key)} against deduplicated plain functions, methods on two instances and a "
-    "static method, two same-named functions made by one factory (equal module and __qualname__, different objects) and methods of two same-named classes whose instances compare equal, over 2-3 keys (in 40% of the histories different keys with EQUAL hashes: -1/-2, 0/2**61-1); bodies block on one or two batch flushes, succeed or raise, and optionally re-enter "
+    "static method, a deduplicated async_proxy forwarding to another function with different arguments, two same-named functions made by one factory (equal module and __qualname__, different objects) and methods of two same-named classes whose instances compare equal, over 2-3 keys (in 40% of the histories different keys with EQUAL hashes: -1/-2, 0/2**61-1); bodies block on one or two batch flushes, succeed or raise, and optionally re-enter "
     "their own key synchronously. Several get_priority() policies, both builds. Model: key -> in-flight task (created, "
     "not complete, not dirtied), maintained from the returned objects and their on_computed events. Oracles: a call from "
     "outside the running body returns the model's task (identity) or, if none, a task that is not already computed and "
@@ -123,6 +123,18 @@ def fns():
         check_answer(W, fn, key, ("val", v), "re-entrant")
         return v
 
+    # deduplicate over async_proxy: the deduplicated "body" is a task of ANOTHER function with other arguments
+    @A()
+    def px_inner(packed):
+        return (yield from body("px", packed))
+
+    from asynq import async_proxy
+
+    @deduplicate()
+    @async_proxy()
+    def px(a, b=0, *, c=1):
+        return px_inner.asynq((a, b, c))
+
     def make_twin(tag):
         # different function objects with the same module, name and qualified name
         @deduplicate()
@@ -148,7 +160,7 @@ def fns():
 
         return P
 
-    _fns.update(f=f, g=g, K=K, o1=K("o1"), o2=K("o2"), helper=helper, t1=make_twin("t1"), t2=make_twin("t2"), p1=make_cls("p:1")(), p2=make_cls("p:2")())
+    _fns.update(f=f, g=g, K=K, o1=K("o1"), o2=K("o2"), helper=helper, t1=make_twin("t1"), t2=make_twin("t2"), px=px, p1=make_cls("p:1")(), p2=make_cls("p:2")())
     return _fns
 
 
@@ -182,7 +194,7 @@ def target(fn):
         return F["o2"].m
     if fn == "s":
         return F["K"].s if True else None
-    if fn in ("t1", "t2"):
+    if fn in ("t1", "t2", "px"):
         return F[fn]
     if fn == "p:1":
         return F["p1"].m
@@ -286,7 +298,7 @@ def do_dirty(fn, key, spelling):
 
 
 def make_script(rnd):
-    fnames = rnd.sample(["f", "g", "m:o1", "m:o2", "s", "t1", "t2", "p:1", "p:2"], rnd.randint(1, 3))
+    fnames = rnd.sample(["f", "g", "m:o1", "m:o2", "s", "t1", "t2", "p:1", "p:2", "px"], rnd.randint(1, 3))
     if rnd.random() < 0.25:
         fnames = rnd.choice([["t1", "t2"], ["p:1", "p:2"], ["t1", "t2", "f"]])
     pool = [(1, 0, 1), (1, 2, 1), (2, 0, 1), (1, 0, 5), (3, 4, 5)]
